@@ -1,6 +1,7 @@
 package checks
 
 import (
+	"reflect"
 	"bytes"
 	"errors"
 	"fmt"
@@ -255,7 +256,8 @@ func runWTCase(c wtCase) (wire []byte, got []refcodec.WTMsg, readErr error, writ
 	sa, sb := fakenet.StreamPipe()
 	var pool webtrans.BufferPool
 	if c.Pool {
-		pool = &sync.Pool{}
+		// a pool shared with a busy neighbour: whatever is put back is overwritten at once
+		pool = &scribblePool{}
 	}
 	a := webtrans.NewConn(nil, sa, c.Server, c.RBuf, c.WBuf, pool, nil, nil)
 	b := webtrans.NewConn(nil, sb, !c.Server, c.RBuf, c.WBuf, nil, nil, nil)
@@ -287,6 +289,39 @@ func runWTCase(c wtCase) (wire []byte, got []refcodec.WTMsg, readErr error, writ
 		}
 	}
 	return sa.Wire(), got, readErr, writeErr
+}
+
+// scribblePool is a BufferPool whose Put overwrites the buffer it is given, as another
+// connection sharing the pool would when it picks the buffer up immediately: a connection that
+// still reads a buffer after handing it back sees garbage.
+type scribblePool struct {
+	mu    sync.Mutex
+	items []interface{}
+}
+
+func (p *scribblePool) Get() interface{} {
+	p.mu.Lock()
+	defer p.mu.Unlock()
+	if n := len(p.items); n > 0 {
+		x := p.items[n-1]
+		p.items = p.items[:n-1]
+		return x
+	}
+	return nil
+}
+
+func (p *scribblePool) Put(x interface{}) {
+	// the pooled value is a struct wrapping one []byte
+	if v := reflect.ValueOf(x); v.Kind() == reflect.Struct && v.NumField() == 1 && v.Field(0).Kind() == reflect.Slice {
+		b := v.Field(0).Bytes()
+		b = b[:cap(b)]
+		for i := range b {
+			b[i] = 0xEE
+		}
+	}
+	p.mu.Lock()
+	p.items = append(p.items, x)
+	p.mu.Unlock()
 }
 
 func isCleanEOF(err error) bool {
